@@ -32,7 +32,9 @@ class PoolInterp(Interp):
         self.abuses = collections.Counter()
 
     def ev(self, t):
-        key = json.dumps(t, sort_keys=True, ensure_ascii=True, default=repr)
+        # the call form is part of the identity of a sub-expression: cat(..;left=True) means
+        # a.concat(b, on_right=False) in method form and Concat(a, b) in class form
+        key = t.get('f', self.form) + '|' + json.dumps(t, sort_keys=True, ensure_ascii=True, default=repr)
         hit = self.pool.get(key)
         if hit is not None:
             self.reused += 1
